@@ -37,7 +37,10 @@ RULE = ("run i < table size decodes the i-th case of the finite table {request-l
         "unrequested resource held} x {one fault at each step of execute_operation: each checkpoint evaluation false or "
         "raising, unknown id at the first/last position, work raising / stalling past the watchdog limit / re-entering "
         "(kill own operation, run_maintenance, shutdown, nested execute_operation), validation false / falsy / raising / "
-        "re-entering} x {CoordinationSystem, IntegratedCell}; later runs sample cases with one or two faults, random "
+        "re-entering; a kill (kill_operation / watchdog time-out / shutdown) delivered at a controller step of the operation in "
+        "flight - before or after its k-th acquire_resource, before its n-th advance - as another thread's kill at that "
+        "interleaving point would be; work results of every truthiness (token, None, 0, '', [], {}, False, 0.0) alone and "
+        "against an accepting / rejecting / raising validator} x {CoordinationSystem, IntegratedCell}; later runs sample cases with one or two faults, random "
         "priorities and pre-emption flags, re-entrant stepped holders; every case is followed by 1-3 seeded further "
         "operations (stepped start/acquire/release/complete/abort, kill, clock + maintenance, shutdown, further "
         "execute_operation calls); non-trivial = a run in which a fault fired, a duplicate entry was acquired or a foreign "
@@ -54,13 +57,19 @@ ASSUMPTIONS = ["operation ids are unique within a run (no reuse while live or af
                "release/inactive clauses still are",
                "what a stepped release() of one of several holds must do is not specified by the statement; only the end of "
                "the operation is judged",
+               "an operation killed at a controller step before its work function is entered has ended by that kill; that "
+               "execute_operation goes on, runs work_fn without the resources the kill released and may report success is "
+               "counted (probe work_ran_after_kill_without_all_resources) but not judged under work_holds_all - the release, "
+               "inactive and untouched clauses are judged when the call returns",
                "an exception escaping execute_operation is not itself a violation (the statement speaks about the state when "
                "the call returns); the release clauses are judged all the same"]
 EXPECT_PROBES = ("exit_commit", "exit_blocked", "exit_unknown_resource", "exit_checkpoint_false", "exit_checkpoint_raise",
                  "exit_work_raise", "exit_validate_false", "exit_validate_raise", "exit_watchdog_kill",
                  "exit_manual_kill", "exit_shutdown", "exit_complete", "exit_abort", "reentrant_hold",
                  "preempting_hold", "foreign_holder_met", "reenter_fired", "nested_exec", "two_faults", "via_cell",
-                 "stall_killed_inside_work", "stepped_reentrant_hold", "table_case")
+                 "stall_killed_inside_work", "stepped_reentrant_hold", "table_case", "step_kill_fired", "step_kill_acq_before",
+                 "step_kill_acq_after", "step_kill_adv_before", "acquired_after_being_killed", "exit_after_kill_failure",
+                 "exit_after_kill_commit", "falsy_work_result", "work_ran_after_kill")
 
 RES = ["r0", "r1", "r2"]
 PHASES = {"G0": Phase.G0, "G1": Phase.G1, "S": Phase.S, "G2": Phase.G2, "M": Phase.M}
@@ -86,9 +95,26 @@ def _single_faults():
     for v in (["true"], ["false"], ["falsy", 0], ["falsy", None], ["falsy", ""], ["raise"],
               ["reenter", "kill_self"], ["reenter", "shutdown"], ["reenter", "nested_high"], ["reenter", "maint"]):
         out.append({"validate": v})
+    # a kill delivered at a controller step (what another thread's kill_operation / watchdog / shutdown amounts to
+    # at that interleaving point): around the k-th acquire_resource and before the n-th advance of the operation in flight
+    for kk in (1, 2, 3):
+        for when in ("before", "after"):
+            for act in ("kill_self", "maint", "shutdown"):
+                out.append({"step": [["acq", kk, when, act]]})
+    for n in (2, 3, 4):
+        for act in ("kill_self", "maint", "shutdown"):
+            out.append({"step": [["adv", n, "before", act]]})
+    out.append({"step": [["adv", 1, "before", "kill_self"]]})
+    # work results of every truthiness, alone and against a rejecting / accepting validator
+    for r in RESULTS[1:]:
+        out.append({"result": r})
+        out.append({"result": r, "validate": ["false"]})
+        out.append({"result": r, "validate": ["raise"]})
+        out.append({"result": r, "validate": ["true"]})
     return out
 
 
+RESULTS = ["tok", None, 0, "", [], {}, False, 0.0]
 FAULTS = _single_faults()
 TABLE = len(SHAPES) * len(FOREIGN) * len(FAULTS) * 2
 
@@ -193,10 +219,15 @@ def gen(rng, tier, i):
     if rng.random() < (0.35 if tier == "quick" else 0.5):
         second = dict(rng.choice(FAULTS))
         for key, v in second.items():
-            if key == "cp" and "cp" in faults:
-                faults["cp"] = faults["cp"] + v
+            if key in ("cp", "step") and key in faults:
+                faults[key] = faults[key] + v
             else:
                 faults.setdefault(key, v)
+    if rng.random() < 0.25:       # a controller-step kill on top, so that it meets every later exit path
+        faults.setdefault("step", [[rng.choice(["acq", "acq", "adv"]), rng.choice([1, 1, 2, 2, 3, 4]),
+                                    rng.choice(["before", "after"]), rng.choice(["kill_self", "maint", "shutdown"])]])
+    if rng.random() < 0.3:
+        faults.setdefault("result", rng.choice(RESULTS))
     preempt = {r: rng.random() < 0.4 for r in RES}
     cfg, pre, ex = _case(sh, fo, faults, rng.random() < 0.3, prio=rng.choice([0, 1, 2, 5, 9]),
                          fprio=rng.choice([None, None, 0, 2, 5, 9]), preempt=preempt,
@@ -246,9 +277,12 @@ def simplify(plan):
         for key in list(f):
             g = {a: b for a, b in f.items() if a != key}
             yield with_op(["exec", oid, rl, pr, g])
-        if len(f.get("cp", [])) > 1:
-            for q in range(len(f["cp"])):
-                yield with_op(["exec", oid, rl, pr, {**f, "cp": f["cp"][:q] + f["cp"][q + 1:]}])
+        for lk in ("cp", "step"):
+            if len(f.get(lk, [])) > 1:
+                for q in range(len(f[lk])):
+                    yield with_op(["exec", oid, rl, pr, {**f, lk: f[lk][:q] + f[lk][q + 1:]}])
+        if "result" in f and f["result"] is not None:
+            yield with_op(["exec", oid, rl, pr, {**f, "result": None}])
         for q in range(len(rl)):
             yield with_op(["exec", oid, rl[:q] + rl[q + 1:], pr, f])
         if pr != 0:
@@ -272,6 +306,10 @@ class World:
         self.cfg = cfg = plan["config"]
         self.cp_script = {}          # opid -> [[phase, nth, kind], ...]
         self.cp_seen = {}            # (opid, phase) -> evaluations
+        self.step_script = {}        # opid -> [[site, nth, when, action], ...]  (kills at controller steps)
+        self.step_seen = {}          # (opid, site) -> calls
+        self.step_action = None      # set by run(): performs the re-entrant action
+        self.zombie = {}             # operations ended by a kill while their execute_operation call is still running
         custom = any(op[0] == "exec" and op[4].get("cp") for op in plan["ops"])
         self.ctrl = CellCycleController(checkpoints=self._checkpoints()) if custom else CellCycleController()
         kw = {}
@@ -305,10 +343,34 @@ class World:
         real_acq = self.ctrl.acquire_resource
 
         def spy_acquire(ctx, resource_id):
+            n = self._step(ctx.operation_id, "acq", None, "before")
             res = real_acq(ctx, resource_id)
             self._on_acquire(ctx.operation_id, resource_id, res)
+            self._step(ctx.operation_id, "acq", n, "after")
             return res
         self.ctrl.acquire_resource = spy_acquire
+        real_adv = self.ctrl.advance
+
+        def spy_advance(ctx):
+            n = self._step(ctx.operation_id, "adv", None, "before")
+            res = real_adv(ctx)
+            self._step(ctx.operation_id, "adv", n, "after")
+            return res
+        self.ctrl.advance = spy_advance
+
+    def _step(self, opid, site, n, when):
+        """A controller step of the operation in flight: count it and deliver a scripted kill before / after it."""
+        script = self.step_script.get(opid)
+        if script is None:
+            return None
+        if n is None:
+            n = self.step_seen[(opid, site)] = self.step_seen.get((opid, site), 0) + 1
+        for st_site, nth, st_when, act in script:
+            if st_site == site and nth == n and st_when == when:
+                self.k.probe("step_kill_fired")
+                self.k.probe("step_kill_" + site + "_" + when)
+                self.step_action(act, opid)
+        return n
 
     # -- scripted checkpoints (defaults unless a fault is due)
     def _checkpoints(self):
@@ -335,16 +397,18 @@ class World:
     # -- history
     def _on_acquire(self, opid, r, res):
         self.k.ev("acq", [opid, r, res.name])
-        rec = self.live.get(opid)
+        rec = self.live.get(opid) or self.zombie.get(opid)
         if res in (LockResult.ACQUIRED, LockResult.PREEMPTED, LockResult.REENTRANT):
             self.touched.add(r)
         if rec is None:
             return
+        if opid in self.zombie and res != LockResult.BLOCKED:
+            self.k.probe("acquired_after_being_killed")
         holds = rec["holds"]
         if res == LockResult.ACQUIRED:
             holds[r] = {"n": 1, "shape": "plain_hold"}
         elif res == LockResult.PREEMPTED:
-            for other, orec in self.live.items():
+            for other, orec in list(self.live.items()) + list(self.zombie.items()):
                 if other != opid:
                     orec["holds"].pop(r, None)
             holds[r] = {"n": 1, "shape": "preempting_hold"}
@@ -360,7 +424,8 @@ class World:
         elif res == LockResult.BLOCKED:
             self.k.probe("foreign_holder_met")
             rec["blocked"] = True
-            holder_live = any(r in orec["holds"] for o, orec in self.live.items() if o != opid)
+            holder_live = any(r in orec["holds"] for o, orec in list(self.live.items()) + list(self.zombie.items())
+                              if o != opid)
             if not holder_live:
                 # behavioural leak: nobody live holds r by the history, yet it cannot be acquired
                 owner = self.ctrl.resources[r].owner
@@ -368,7 +433,7 @@ class World:
                                  f"{opid} BLOCKED on {r}: owner {owner!r} ended via {self.exit.get(owner)}")
 
     def hold_shape(self, opid, r):
-        rec = self.live.get(opid)
+        rec = self.live.get(opid) or self.zombie.get(opid)
         if rec and r in rec["holds"]:
             return rec["holds"][r]["shape"]
         return self.last_shape.get((opid, r), "unknown_hold")
@@ -379,6 +444,10 @@ class World:
             return
         for r, h in rec["holds"].items():
             self.last_shape[(opid, r)] = h["shape"]
+        if rec.get("in_call"):
+            # killed while its execute_operation call is still running: what it acquires from now on is still its own
+            rec["holds"] = {}
+            self.zombie[opid] = rec
         self.exit.setdefault(opid, path)
         self.ended_now.add(opid)
         self.k.probe("exit_" + path)
@@ -476,21 +545,34 @@ def run(plan, k):
         w.used.add(opid)
         st = {"work": 0, "work_done": False, "validate": 0, "held_at_entry": None, "v_ok": None,
               "v_before_work": False, "v_judged": True}
-        w.live[opid] = {"holds": {}, "stepped": False}
+        w.live[opid] = {"holds": {}, "stepped": False, "in_call": True}
         if faults.get("cp"):
             w.cp_script[opid] = faults["cp"]
+        if faults.get("step"):
+            w.step_script[opid] = faults["step"]
         wf = faults.get("work") or ["ok"]
         vf = faults.get("validate")
         flags = w.flags.setdefault(opid, set())
-        if len([1 for key in ("cp", "unknown", "work", "validate") if faults.get(key)
-                and faults.get(key) not in (["ok"], ["true"])]) + max(len(faults.get("cp", [])) - 1, 0) >= 2:
+        if len([1 for key in ("cp", "unknown", "work", "validate", "step") if faults.get(key)
+                and faults.get(key) not in (["ok"], ["true"])]) + max(len(faults.get("cp", [])) - 1, 0) \
+                + max(len(faults.get("step", [])) - 1, 0) >= 2:
             k.probe("two_faults")
         requested = [r for r in reslist if r in ctrl.resources]
 
         def work():
             st["work"] += 1
-            st["held_at_entry"] = [r for r in requested if ctrl.resources[r].owner != opid]
-            k.ev("work", [opid, st["work"], st["held_at_entry"]])
+            missing = [r for r in requested if ctrl.resources[r].owner != opid]
+            if opid in w.live:
+                st["held_at_entry"] = missing
+            else:
+                # the operation was killed at an earlier controller step and execute_operation went on regardless;
+                # whether work may still run then is not settled by the statement (see ASSUMPTIONS): counted only
+                k.probe("work_ran_after_kill")
+                if missing:
+                    k.probe("work_ran_after_kill_without_all_resources")
+            if "result" in faults and not (faults["result"] or False):
+                k.probe("falsy_work_result")
+            k.ev("work", [opid, st["work"], missing])
             if wf[0] == "raise":
                 w.fault_fired = True
                 k.fault("collab_raise")
@@ -508,7 +590,7 @@ def run(plan, k):
             elif wf[0] == "reenter":
                 reenter(wf[1], opid, reslist, prio, depth)
             st["work_done"] = True
-            return "out-" + opid
+            return faults["result"] if "result" in faults else "out-" + opid
 
         def validate(result):
             st["validate"] += 1
@@ -552,7 +634,7 @@ def run(plan, k):
         if out.kind not in ("ok", "raised"):
             k.violation("returns", out.kind, "execute_operation", str(out.exc)[:200])
         # classify the exit path (detail and probes only)
-        rec = w.live.get(opid)
+        rec = w.live.get(opid) or w.zombie.get(opid)
         success = bool(out.kind == "ok" and out.value.success)
         if out.kind == "raised":
             path = "escaped_" + type(out.exc).__name__
@@ -575,9 +657,15 @@ def run(plan, k):
         else:
             path = "other_failure"
         if opid in w.live:
+            w.live[opid]["in_call"] = False
             w.end(opid, path)
         else:
             k.probe("exit_" + path)   # already ended by a re-entrant kill / shutdown; the call still had its own exit
+            z = w.zombie.pop(opid, None)
+            if z is not None:
+                k.probe("exit_after_kill_" + ("commit" if success else "failure"))
+                for r, h in z["holds"].items():
+                    w.last_shape[(opid, r)] = h["shape"]
         w.must_be_dead.append((opid, "execute_operation"))
 
         # ---- call-level clauses
@@ -600,10 +688,14 @@ def run(plan, k):
                     continue
                 if not st["work_done"]:
                     k.violation("success", "success_without_completed_work", label, f"path={path} work calls={st['work']}")
-                if vf and st["v_judged"] and st["v_ok"] is not True:
+                if vf and st["validate"] == 0:
+                    k.violation("success", "success_without_validation_run", label,
+                                f"validator given but never called; work result {faults.get('result', 'token')!r}")
+                elif vf and st["v_judged"] and st["v_ok"] is not True:
                     k.violation("success", "success_without_passed_validation", label,
                                 f"validation={vf} ok={st['v_ok']} calls={st['validate']}")
 
+    w.step_action = lambda kind, opid: reenter(kind, opid, [], 0, 1)
     with SeqTracer(k, scope, 50_000) as tr:
         for op in list(plan.get("pre", [])) + list(plan["ops"]):
             name = op[0]
